@@ -62,12 +62,16 @@ PROPS = {
             "modules": DEFAULT_MODULES + [FACTS, "RProofs.Properties.C05"],
             "owns": {"ser", "rd", "wrfail", "trunc", "wf", "dig", "add", "or", "mkrepr"}},
     "C06": {"suites": [("spec", 1.0)], "theorems": ["RModel.BSet.canon_ext"] + F_SERIAL, "modules": DEFAULT_MODULES + [FACTS], "owns": {"spec", "ser", "card", "toarr"}},
-    "C07": {"suites": [("alias", 1.0)], "modules": ["RModel"],
-            "theorems": ["RModel.Impl.safe_nil", "RModel.Impl.safe_iff", "RModel.Impl.safe_unflagged_not_foreign",
-                         "RModel.Impl.safe_unflagged_private"],
+    "C07": {"suites": [("alias", 1.0)], "modules": ["RProofs.Heap"],
+            "theorems": ["RModel.Impl.safe_nil", "RModel.Impl.safe_iff", "RModel.Impl.safe_unflagged_private",
+                         "RModel.Impl.safe_gate", "RModel.Impl.safe_cloneBitmap", "RModel.Impl.safe_appendCopy",
+                         "RModel.Impl.safe_appendFresh", "RModel.Impl.safe_insertFresh", "RModel.Impl.safe_removeSlot",
+                         "RModel.Impl.safe_detach", "RModel.Impl.safe_dropBitmap", "RModel.Impl.safe_setCow",
+                         "RModel.Impl.gate_private", "RModel.Impl.gate_frame", "RModel.Impl.safe_run", "RModel.Impl.safe_reachable"],
             "owns": None},
-    "C08": {"suites": [("zerocopy", 1.0)], "modules": ["RModel"],
-            "theorems": ["RModel.Impl.safe_iff", "RModel.Impl.safe_unflagged_not_foreign"],
+    "C08": {"suites": [("zerocopy", 1.0)], "modules": ["RProofs.Heap"],
+            "theorems": ["RModel.Impl.safe_unflagged_not_foreign", "RModel.Impl.safe_addZeroCopy", "RModel.Impl.gate_not_foreign",
+                         "RModel.Impl.detach_no_foreign'", "RModel.Impl.safe_reachable", "RModel.Impl.hdrLocal_run"],
             "owns": None},
     "C09": {"suites": [("hist", 1.0), ("alg", 0.7), ("xform", 0.7), ("ser", 0.5), ("kernwf", 1.0), ("kernthresh", 1.0), ("thresh", 0.5)],
             "theorems": ["RModel.Impl.wf_implies_validate", "RModel.Impl.validate_implies_wf_of_decoded", "RModel.BSet.canon_ext"] + F_THRESH,
